@@ -376,6 +376,7 @@ pub fn script_from_bytes(data: &[u8]) -> (crate::sim::Script, bool) {
             greeting_tail: None,
             foreign_callers: false,
             shutdown_behaviour: 0,
+            events_next_cancelled: false,
         },
         faulty && fault_used,
     )
